@@ -286,7 +286,64 @@ func c11Subs() []fw.Sub {
 		fw.Prop[c11Seg]{Name: "segment-rect", Checks: n(10000, 200000), Gen: func(t *rapid.T) c11Seg {
 			return c11Seg{A: fpt{genFinite(t, "ax"), genFinite(t, "ay")}, B: fpt{genFinite(t, "bx"), genFinite(t, "by")}}
 		}, Check: c11SegCheck},
+		fw.Prop[c11NF]{Name: "valid-nonfinite", Checks: n(8000, 150000), Gen: c11NFGen, Check: c11NFCheck},
 	}
+}
+
+// c11NF: an object with one NaN / infinite ordinate in a part that occupies space.  NaN and the
+// infinities are not within [-180,180] x [-90,90], so Valid() is false (Rect and Center are not asserted:
+// min / max over NaN is not defined by the statement).
+type c11NF struct {
+	Spec objSpec `json:"spec"`
+}
+
+func specSlots(s *objSpec, out []*fpt) []*fpt {
+	for i := range s.Pts {
+		out = append(out, &s.Pts[i])
+	}
+	for i := range s.Rings {
+		for j := range s.Rings[i] {
+			out = append(out, &s.Rings[i][j])
+		}
+	}
+	for i := range s.Children {
+		out = specSlots(&s.Children[i], out)
+	}
+	return out
+}
+
+func c11NFGen(t *rapid.T) c11NF {
+	c := c11NF{Spec: genFiniteSpec(t, 2)}
+	if slots := specSlots(&c.Spec, nil); len(slots) > 0 {
+		p := slots[rapid.IntRange(0, len(slots)-1).Draw(t, "slot")]
+		v := F(rapid.SampledFrom([]float64{math.NaN(), math.Inf(1), math.Inf(-1)}).Draw(t, "nonfinite"))
+		if rapid.Bool().Draw(t, "axis") {
+			p.X = v
+		} else {
+			p.Y = v
+		}
+	}
+	return c
+}
+
+func c11NFCheck(c c11NF) fw.Outcome {
+	obj := c.Spec.build()
+	pts, _ := c.Spec.modelPositions()
+	bad := false
+	for _, p := range pts {
+		for _, v := range []float64{float64(p.X), float64(p.Y)} {
+			if math.IsNaN(v) || math.IsInf(v, 0) {
+				bad = true
+			}
+		}
+	}
+	if !bad {
+		return fw.Outcome{Label: "non-finite ordinate not in an occupied part", Skip: true}
+	}
+	if obj.Valid() {
+		return fw.Failf(c.Spec.Kind, "Valid() = true for an object with a NaN / infinite ordinate in an occupied part: %s", obj.JSON())
+	}
+	return fw.OK(c.Spec.Kind+"/non-finite", true)
 }
 
 func TestC11(t *testing.T) { fw.Main(t, "C11", c11Subs(), nil) }
